@@ -52,6 +52,7 @@ Checks(r) ==
     \* the binding: an untampered honest log must answer, and the case is the plan's
     \cup V("HARNESS.PristineIncomplete", r.id, c.obj = "none" /\ c.log = "A" /\ ~CompleteR(r))
     \cup V("HARNESS.Plan", r.id, Expect(c) # c.expect)
+    \cup V("HARNESS.CacheWarmUpFailed", r.id, r.warm_failed)
 
 \* how the real answer compares with the expected class (counted, not judged)
 Class(r) ==
